@@ -338,9 +338,9 @@ static int run_cmd(char *op, int *a, int na) {
     else if (IS("rd8")) { uint8_t v = 0xCC; CO_ERR e = CODictRdByte(&node.Dict, CO_DEV(a[0], a[1]), &v); if (e) ITEM("err %d", (int)e); else ITEM("ret %u", v); }
     else if (IS("rd16")) { uint16_t v = 0xCCCC; CO_ERR e = CODictRdWord(&node.Dict, CO_DEV(a[0], a[1]), &v); if (e) ITEM("err %d", (int)e); else { item_begin(); printf("ret"); put_le(v, 2); } }
     else if (IS("rd32")) { uint32_t v = 0xCCCCCCCC; CO_ERR e = CODictRdLong(&node.Dict, CO_DEV(a[0], a[1]), &v); if (e) ITEM("err %d", (int)e); else { item_begin(); printf("ret"); put_le(v, 4); } }
-    else if (IS("wr8")) { CO_ERR e = CODictWrByte(&node.Dict, CO_DEV(a[0], a[1]), (uint8_t)a[2]); ITEM("err %d", (int)e); }
-    else if (IS("wr16")) { CO_ERR e = CODictWrWord(&node.Dict, CO_DEV(a[0], a[1]), (uint16_t)le_arg(a + 2, 2)); ITEM("err %d", (int)e); }
-    else if (IS("wr32")) { CO_ERR e = CODictWrLong(&node.Dict, CO_DEV(a[0], a[1]), le_arg(a + 2, 4)); ITEM("err %d", (int)e); }
+    else if (IS("wr8")) { CO_ERR e = CODictWrByte(&node.Dict, CO_DEV(a[0], a[1]), (uint8_t)a[2]); if (e) ITEM("err %d", (int)e); else ITEM("ok"); }
+    else if (IS("wr16")) { CO_ERR e = CODictWrWord(&node.Dict, CO_DEV(a[0], a[1]), (uint16_t)le_arg(a + 2, 2)); if (e) ITEM("err %d", (int)e); else ITEM("ok"); }
+    else if (IS("wr32")) { CO_ERR e = CODictWrLong(&node.Dict, CO_DEV(a[0], a[1]), le_arg(a + 2, 4)); if (e) ITEM("err %d", (int)e); else ITEM("ok"); }
     else if (IS("rdbuf")) {           /* idx sub len : buffer of exactly len bytes, prefilled 0xCC */
         uint32_t n = (uint32_t)a[2]; uint8_t *b = exact(n); memset(b, 0xCC, n ? n : 1);
         CO_ERR e = CODictRdBuffer(&node.Dict, CO_DEV(a[0], a[1]), b, n);
@@ -348,7 +348,7 @@ static int run_cmd(char *op, int *a, int na) {
     }
     else if (IS("wrbuf")) {           /* idx sub len base : bytes (base+i)&0xFF */
         uint32_t n = (uint32_t)a[2]; uint8_t *b = exact(n); for (uint32_t i = 0; i < n; i++) b[i] = (uint8_t)(a[3] + i);
-        CO_ERR e = CODictWrBuffer(&node.Dict, CO_DEV(a[0], a[1]), b, n); ITEM("err %d", (int)e); free(b);
+        CO_ERR e = CODictWrBuffer(&node.Dict, CO_DEV(a[0], a[1]), b, n); if (e) ITEM("err %d", (int)e); else ITEM("ok"); free(b);
     }
     else if (IS("dump")) {            /* idx sub : object bytes (raw storage) */
         int found = 0;
